@@ -306,7 +306,9 @@ func RunCase(seed uint64, idx int, p *Profile, o *Opts, st *Stats) (cr *CaseResu
 			d.viol("C10", "misuse-accepted", "%s (%s, handle kind %s) returned normally, expected a panic", MisuseTable[op.Slot].Name, MisuseTable[op.Slot].Class, staleNames[op.Sub%NStale])
 		}
 		if twin != nil && !skipped {
-			if resB.Panicked != res.Panicked {
+			// (calls guarded only by the debug build - use of a finished query and the like - may depend on component IDs,
+			// e.g. on which component has ID 0: worlds with different IDs need not agree on them)
+			if resB.Panicked != res.Panicked && !(x.Either && o.Twin == "shared") {
 				twin.viol("C14", "twin-panic", "twin worlds disagree on panic for %s: A=%v (%v) B=%v (%v)", op, res.Panicked, res.PanicVal, resB.Panicked, resB.PanicVal)
 				stop = true
 			}
